@@ -286,6 +286,8 @@ class Interp:
         self.events = []          # obligations and notes
         self.call_hooks = []      # fn(I, st, call) for every call event (recording passes only)
         self.stmt_hooks = []      # fn(I, ctx, st, bi, si, stmt)
+        self.loop_hooks = []      # fn(I, ctx, head block, head state, back states, exits)
+        self.value_hooks = []     # fn(I, ctx, st, value) -> None, on every assigned value (all passes)
         self.return_hooks = {}
         self.unmodelled = {}
         self.imprecise = []
@@ -296,6 +298,7 @@ class Interp:
         self.assume_no_overflow_checks = False
         self.extra_models = {}
         self.addr_syms = {}
+        self.type_invariants = {}
         self.str_boundaries = {}
 
     def str_boundary_ok(self, st, s, a, b):
@@ -464,6 +467,9 @@ class Interp:
                 return EnumV(path, {i: None for i in range(len(a["variants"]))}, ty)
             if ty[3] == "struct" and a is not None and (a.get("local") or path in TRANSPARENT_FOREIGN_STRUCTS):
                 fts = self.field_types(ty)
+                inv = self.type_invariants.get(path)
+                if inv is not None:
+                    return inv(self, st, ty, fts, hint)
                 return StructV([TopV(t) for t in fts])
             return OpaqueV(ty, (("unknown", hint),))
         if k in ("tuple", "closure"):
@@ -1105,6 +1111,8 @@ class Interp:
                         "file": sp["f"], "line": sp.get("cl", sp["l"]) if "exp" in sp else sp["l"], "stack": ctx.stack}
             v = self.rvalue(ctx, st, s["rv"], dty, site)
             self.store(ctx, st, mp, v)
+            for h in self.value_hooks:
+                h(self, ctx, st, v)
             for h in self.stmt_hooks:
                 if self.recording:
                     h(self, ctx, st, bi, si, s, v)
@@ -1169,7 +1177,7 @@ class Interp:
                     if lemma:
                         ok = True
                 self.note("assert:" + t["msg"], site, ok,
-                          None if ok else self.explain(st, cond, exp, ops), st, lemma=lemma,
+                          None if ok else self.explain(st, cond, exp, ops), st=st, lemma=lemma,
                           operands=[o.aff if isinstance(o, IntV) else None for o in ops])
             out = assume(st, cond, exp)
             return [(t["t"], s2) for s2 in out]
@@ -1520,6 +1528,9 @@ class Interp:
         finally:
             self.recording = saved
         backs, exits = self.run_region(ctx, h, {h: [head.copy()]})
+        if self.recording:
+            for hk in self.loop_hooks:
+                hk(self, ctx, h, head, backs, exits)
         return exits
 
     # -------------------------------------------------------------- joins --
@@ -1549,6 +1560,8 @@ class Interp:
                     out.append((name + (("cap",),), v.cap))
             elif isinstance(v, SliceV):
                 out.append((name + (("slen",),), v.len))
+                if v.base is not None and not v.off.is_const():
+                    out.append((name + (("soff",),), v.off))
             elif isinstance(v, OpaqueV):
                 for k, x in v.attrs:
                     if isinstance(x, Aff):
@@ -1573,6 +1586,9 @@ class Interp:
     def _widen1(self, old, new, tag, it, plain):
         res = State()
         res.ghost = {k: v for k, v in old.ghost.items() if new.ghost.get(k) == v}
+        for gk in list(old.ghost) + list(new.ghost):
+            if isinstance(gk, tuple) and gk and gk[0] == "inj":
+                res.ghost[gk] = True
         res.bounds = dict(old.bounds)
         res.excl = dict(old.excl)
         changed = ChangeFlag()
@@ -1692,11 +1708,16 @@ class Interp:
             if isinstance(a, SliceV):
                 if a == b:
                     return a
-                ln = jaff(a.len, b.len, name + (("slen",),))
                 base = a.base if a.base == b.base else None
-                off = a.off if a.off == b.off else None
-                if base is None or off is None:
+                if base is None:
+                    ln = jaff(a.len, b.len, name + (("slen",),))
                     return SliceV(ln, None, Aff.const(0), a.mut)
+                if (a.off + a.len) == (b.off + b.len):
+                    # same end: keep len = end - off exact
+                    off = jaff(a.off, b.off, name + (("soff",),))
+                    return SliceV(a.off + a.len - off, base, off, a.mut)
+                ln = jaff(a.len, b.len, name + (("slen",),))
+                off = jaff(a.off, b.off, name + (("soff",),))
                 return SliceV(ln, base, off, a.mut)
             if a == b:
                 return a
@@ -1765,6 +1786,7 @@ class Interp:
         m_old = {p: ao for p, (ao, an) in phis.items()}
         m_new = {p: an for p, (ao, an) in phis.items()}
         cands = []
+        tmpl = []
         seen = set()
         for f in old.facts:
             if f not in seen:
@@ -1788,24 +1810,38 @@ class Interp:
                         continue
                     if len(q.t) > 3:
                         continue
-                    for c in (q - pa, q - pa - 1, pa - q, pa - q - 1, q - pa + 1, pa - q + 1):
-                        if c not in seen:
-                            seen.add(c)
-                            cands.append(c)
+                    # strongest first; weaker variants only if the stronger fails
+                    tmpl.append((q - pa - 1, q - pa, q - pa + 1))
+                    tmpl.append((pa - q - 1, pa - q, pa - q + 1))
         kept = []
         oldset = set(old.facts)
-        for f in cands:
-            fo = f.subst(m_old) if any(s in m_old for s, _ in f.t) else f
-            fn = f.subst(m_new) if any(s in m_new for s, _ in f.t) else f
-            if res.lower(f) >= 0:
-                continue
+
+        def passes(f):
+            fo = f.subst(m_old) if any(s_ in m_old for s_, _ in f.t) else f
+            fn = f.subst(m_new) if any(s_ in m_new for s_, _ in f.t) else f
             if old.upper(fo) < 0 or new.upper(fn) < 0:
-                continue
+                return False
             in_old = (fo in oldset) or old.entails(fo, 2)
             if not in_old:
+                return False
+            return new.entails(fn, 2 if plain else 3)
+
+        for f in cands:
+            if res.lower(f) >= 0:
                 continue
-            if new.entails(fn, 2 if plain else 3):
+            if passes(f):
                 kept.append(f)
+        keptset = set(kept)
+        for group in tmpl:
+            for f in group:
+                if f in keptset:
+                    break
+                if res.lower(f) >= 0:
+                    break
+                if passes(f):
+                    kept.append(f)
+                    keptset.add(f)
+                    break
         if len(kept) != len(old.facts) or any(f not in old.facts for f in kept):
             # dropping or adding facts changes the state (adding only happens at
             # the first introduction of a phi, which already set changed)
